@@ -42,7 +42,16 @@ def cases(draw):
     iters = st.one_of(st.sampled_from([1, 2, 3, 4, 5, 10]), st.sampled_from([200, 1000, 2000]),
                       st.sampled_from([200, 1000, 2000]), st.integers(3, 300))
     params = draw(gen.solver_params(recipe["n"], recipe["density"], iters, cheap=False))
-    return {"recipe": recipe, "params": params}
+    case = {"recipe": recipe, "params": params}
+    if draw(st.integers(0, 3)) == 0:
+        # part of the budget is spent through DoGlobalIteration before Solve (never more than itersLimit, possibly
+        # all of it), and Solve may be called again on the finished solver
+        lim = params["itersLimit"]
+        total = draw(st.one_of(st.just(lim), st.integers(0, lim), st.integers(0, min(lim, 30))))
+        total = min(total, 400)
+        case["pre"] = draw(gen.compositions(total, max_parts=4)) if total else []
+        case["again"] = draw(st.integers(0, 2))
+    return case
 
 
 def body(case):
@@ -50,7 +59,22 @@ def body(case):
     eps, limit, r = p["eps"], p["itersLimit"], p["r"]
     run = Run(case["recipe"], p)
     run.problem.max_calls = limit + 3
+    pre = 0
+    try:
+        for k in case.get("pre", []):
+            run.step(k)
+            pre += k
+    except Exception as e:
+        if "outside of interval" not in str(e):
+            raise
+        return False, ["N=%d" % run.n, "float-resolution-stop"]
     sol = run.solve()
+    for _ in range(case.get("again", 0)):
+        before = len(run.problem.log)
+        sol = run.solve()
+        if len(run.problem.log) != before:
+            fail("Solve called again on the finished solver made %d further evaluations (%d -> %d, itersLimit=%d)" %
+                 (len(run.problem.log) - before, before, len(run.problem.log), limit))
     if run.problem.runaway:
         fail("Solve kept evaluating the objective beyond itersLimit+3 = %d evaluations" % (limit + 3))
     hist = run.history()
@@ -74,16 +98,19 @@ def body(case):
         classes.append("float-resolution-stop")
         return False, classes
     D = [i["D"] for i in info[1:]]          # D[j] belongs to trial j+2
+    # trials 1..pre were requested explicitly (DoGlobalIteration does not consult the stop rule); every trial
+    # after them was made by Solve and needs the criterion to be false when it was started
     for j, d in enumerate(D[:-1]):
-        if hoelder_eps_cmp(d, eps) < 0:
-            fail("trial %d subdivided an interval of Hoelder length %r < eps=%r but the search went on to %d "
-                 "trials" % (j + 2, d, eps, n))
+        if hoelder_eps_cmp(d, eps) < 0 and n > max(pre, j + 2):
+            fail("trial %d subdivided an interval of Hoelder length %r < eps=%r but Solve went on to %d "
+                 "trials (%d of them requested through DoGlobalIteration)" % (j + 2, d, eps, n, pre))
     if n < limit:
         if n == 1:
             fail("search stopped after the first trial although itersLimit=%d" % limit)
-        if hoelder_eps_cmp(D[-1], eps) > 0:
+        last = D[-1] if n > pre else min(D)
+        if hoelder_eps_cmp(last, eps) > 0:
             fail("search stopped after %d < itersLimit=%d trials although the last subdivided interval has "
-                 "Hoelder length %r >= eps=%r" % (n, limit, D[-1], eps))
+                 "Hoelder length %r >= eps=%r" % (n, limit, last, eps))
         if not (sol.solutionAccuracy < eps):
             fail("search stopped after %d < itersLimit=%d trials with reported accuracy %r not below eps=%r" %
                  (n, limit, sol.solutionAccuracy, eps))
@@ -94,6 +121,9 @@ def body(case):
     reason = "accuracy" if n < limit else ("both" if D and hoelder_eps_cmp(D[-1], eps) <= 0 else "budget")
     classes.append("stop=" + reason)
     tie = any(d == eps for d in D)
+    if "pre" in case:
+        classes.append("pre-batches=%s" % ("all-budget" if pre == limit else ("some" if pre else "none")))
+        classes.append("solve-again=%d" % case.get("again", 0))
     if limit <= 2:
         classes.append("itersLimit<=2")
     if eps >= 1:
